@@ -106,6 +106,10 @@ impl TableDP {
         let (_, by) = self.join.expect("join_atoms on a powerset model");
         (a / by).max(b / by) * by + (a % by).max(b % by)
     }
+    pub fn meet_atoms(&self, a: usize, b: usize) -> usize {
+        let (_, by) = self.join.expect("meet_atoms on a powerset model");
+        (a / by).min(b / by) * by + (a % by).min(b % by)
+    }
     pub fn mk_state(&self, depth: usize, set: u32) -> St {
         St { depth: if self.embed_depth { depth } else { 0 }, set }
     }
@@ -141,7 +145,6 @@ impl TableDP {
         }
         if let Some((bx, by)) = self.join {
             assert_eq!(bx * by, self.b);
-            assert!(!self.has_irrelevance());
             for l in 0..=self.n {
                 for a in 0..self.b {
                     for c in 0..self.b {
@@ -149,8 +152,8 @@ impl TableDP {
                             assert!(self.psi[l][a] <= self.psi[l][c], "potential not monotone");
                             if l < self.n {
                                 for d in 0..self.nd {
-                                    if let Some((nx, co)) = self.delta[l][a][d] {
-                                        let (nx2, co2) = self.delta[l][c][d].expect("domain not monotone");
+                                    if let Some((nx, co)) = self.tr_base(l, a, d) {
+                                        let (nx2, co2) = self.tr_base(l, c, d).expect("domain not monotone");
                                         assert!(self.leq(nx, nx2) && co <= co2, "transition not monotone");
                                     }
                                 }
@@ -685,10 +688,32 @@ pub fn build(raw: Raw, p: &GenParams) -> TableDP {
         }
     }
     let mut t = TableDP { n, b, nd, order, delta, psi: psi_t, relevant, init: (init as usize * b) >> 8, v0: v0 as isize, embed_depth, join: None };
-    if join_on && b == 4 && !irr {
+    if join_on && b == 4 {
         // make the tables monotone in the product order of the 2 x 2 grid, bottom-up
         t.join = Some((2, 2));
         let preds: [&[usize]; 4] = [&[], &[0], &[0], &[1, 2]];
+        if irr {
+            // an atom c that is not impacted at layer l only offers "0 = stay, cost 0": every relevant atom
+            // below it may then only offer decision 0, at a cost <= 0, leading below c. (This is what makes
+            // the join of two impacted states possibly NOT impacted, as with an intersection-like merge.)
+            for l in 0..n {
+                for c in 0..4 {
+                    if t.relevant[l][c] {
+                        continue;
+                    }
+                    for a in 0..4 {
+                        if a != c && t.leq(a, c) && t.relevant[l][a] {
+                            for d in 1..nd {
+                                t.delta[l][a][d] = None;
+                            }
+                            if let Some((nx, co)) = t.delta[l][a][0] {
+                                t.delta[l][a][0] = Some((t.meet_atoms(nx, c), co.min(0)));
+                            }
+                        }
+                    }
+                }
+            }
+        }
         for l in 0..=n {
             for a in 0..4 {
                 for p in preds[a] {
@@ -698,9 +723,12 @@ pub fn build(raw: Raw, p: &GenParams) -> TableDP {
         }
         for l in 0..n {
             for a in 0..4 {
+                if !t.relevant[l][a] {
+                    continue;
+                }
                 for p in preds[a] {
                     for d in 0..nd {
-                        if let Some((pn, pc)) = t.delta[l][*p][d] {
+                        if let Some((pn, pc)) = t.tr_base(l, *p, d) {
                             t.delta[l][a][d] = Some(match t.delta[l][a][d] {
                                 Some((an, ac)) => (t.join_atoms(an, pn), ac.max(pc)),
                                 None => (pn, pc),
